@@ -15,7 +15,7 @@ class C01(Prop):
     level_text = 'Seeded search: tens of thousands (quick) to millions (thorough) of generated event programs and whole-model runs per invocation, each dispatch checked against the minimum of a queue snapshot and an executable queue model in lockstep. Sampling, not proof: right level because the property quantifies over unbounded programs and tie-break outcomes.'
     level_note = 'Trusts: Python, the harness model (simv/envsim.py QModel), dyadic time grid; reads private _events/_paused_events lists for snapshots.'
     design_ref = 'DESIGN.md section 4 / C01'
-    budgets = {'quick': 120000, 'thorough': 3000000}
+    budgets = {'quick': 120000, 'thorough': 1500000}
     timeout_s = 20.0
     rule = ('envsim: seeded random event programs (<=60 events over <=4 asset ids, built-in and fractional '
             'priorities, children scheduled from inside actions, pause/unpause/cancel, past-scheduling attempts, '
